@@ -330,7 +330,7 @@ func tagRule(p *Prog, r *Rule, only func(doc string, ti tagInfo, kind string) bo
 }
 
 func checkC10(p *Prog, rp *Report) {
-	rp.Explanation = "C10-TAGS: for DSC, Changes, SourceParagraph, BinaryParagraph, BinaryIndex, SourceIndex, BestChecksums and deb.Control every struct field's resolved wire name, Go type, delim, strip and required tag is compared with the Debian field table of that document kind (written from dsc(5), deb-changes(5), deb-src-control(5), deb-control(5), the Packages/Sources index format): the name must exist, comma lists split on ',' and stripped of blank/tab/LF, blank lists split on blanks, checksum lists one per line with the element type of their algorithm, versions/architectures/relationships in the library's own types. C10-SPLIT: the decoder splits blank separated lists on any white space and trims with the field's strip set. C10-HASHLINE: column tables of the checksum line parsers. C10-ACCESS: accessor tables (Maintainers, HasArchAll, SourcePackage, Checksums, Get* field names, AbsFiles). C10-READER: ParseControl reads source and binaries from one reader. C10-DOC: for each of the eight document types a document is rendered in the Debian layout from a model (one value per field of the Debian field table of that kind: scalars, integers, yes/no, a version, architectures, a relationship folded over two lines, comma and blank lists folded, multi-line text with a blank-line dot, two lines per checksum list, five-column .changes lines) and (*Decoder).Decode is interpreted on it (reflect model of C09, reader oracle); every Go field is compared with the model: scalars verbatim, versions/architectures/relationships as the parsed form of exactly their text (their own UnmarshalControl interpreted on the trimmed element), lists as trimmed elements in order, checksum lines as (algorithm, hash, size, name[, section, priority]) tuples; Go-only fields stay untouched; fields without a Go counterpart are ignored."
+	rp.Explanation = "C10-TAGS: for DSC, Changes, SourceParagraph, BinaryParagraph, BinaryIndex, SourceIndex, BestChecksums and deb.Control every struct field's resolved wire name, Go type, delim, strip and required tag is compared with the Debian field table of that document kind (written from dsc(5), deb-changes(5), deb-src-control(5), deb-control(5), the Packages/Sources index format): the name must exist, comma lists split on ',' and stripped of blank/tab/LF, blank lists split on blanks, checksum lists one per line with the element type of their algorithm, versions/architectures/relationships in the library's own types. C10-SPLIT: the decoder splits blank separated lists on any white space and trims with the field's strip set. C10-HASHLINE: column tables of the checksum line parsers. C10-ACCESS: accessor tables (Maintainers, HasArchAll, SourcePackage, Checksums, Get* field names, AbsFiles). Accessors are also checked to leave the document unchanged (AbsFiles twice gives the same paths; Get<X> returns the parsed field X). C10-READER: ParseControl reads source and binaries from one reader. C10-DOC: for each of the eight document types a document is rendered in the Debian layout from a model (one value per field of the Debian field table of that kind: scalars, integers, yes/no, a version, architectures, a relationship folded over two lines, comma and blank lists folded, multi-line text with a blank-line dot, two lines per checksum list, five-column .changes lines) and (*Decoder).Decode is interpreted on it (reflect model of C09, reader oracle); every Go field is compared with the model: scalars verbatim, versions/architectures/relationships as the parsed form of exactly their text (their own UnmarshalControl interpreted on the trimmed element), lists as trimmed elements in order, checksum lines as (algorithm, hash, size, name[, section, priority]) tuples; Go-only fields stay untouched; fields without a Go counterpart are ignored."
 	rp.NotDecided = "document models other than the one of C10-DOC (field presence subsets, other list lengths); fields absent from the Go structs."
 	rp.Trusted = []string{"go/types, go/ssa", "the Debian field tables in c10.go"}
 	tags := rp.Rule("C10-TAGS", "struct tags of the typed documents agree with the Debian field tables", 100)
@@ -627,30 +627,53 @@ func c10Access(p *Prog, rp *Report) {
 			if sigRes := fn.Signature.Results(); sigRes.Len() != 1 || !isNamed(sigRes.At(0).Type(), "dependency", "Dependency") {
 				continue
 			}
-			var lits []string
-			for _, c := range allCalls(fn) {
-				for _, a := range c.Common().Args {
-					if s, ok := constString(a); ok {
-						lits = append(lits, s)
-					}
-				}
-			}
+			// interpreted: the entry's raw paragraph holds every relationship field with a distinct package name;
+			// Get<X> must return the parsed form of field X (X up to hyphens)
 			key := "control." + typ + "." + name
 			want := strings.TrimPrefix(name, "Get")
-			if len(lits) != 1 {
-				r.undecided(key, p.Pos(fn.Pos()), fmt.Sprintf("expected one field-name literal, found %v", lits))
+			relFields := append(append([]string{}, relFieldsBinary...), relFieldsSource...)
+			field := ""
+			for _, f := range relFields {
+				if strings.ReplaceAll(f, "-", "") == want {
+					field = f
+				}
+			}
+			if field == "" {
+				r.bad(key, p.Pos(fn.Pos()), name+" does not correspond to a relationship field of this kind of document", nil)
 				continue
 			}
-			got := strings.ReplaceAll(lits[0], "-", "")
-			if got != want {
-				r.bad(key, p.Pos(fn.Pos()), fmt.Sprintf("%s reads the field %q", name, lits[0]), nil)
+			pt := p.Named("control", "Paragraph")
+			m := NewMachine(p, nil)
+			st := initState(m, "control", "dependency")
+			mid := st.alloc(structOf(pt).Field(fieldIndex(structOf(pt), "Values")).Type(), &MapObjV{})
+			mo := st.Heap[mid].V.(*MapObjV)
+			for _, f := range relFields {
+				mo.K = append(mo.K, f)
+				mo.V = append(mo.V, "pkg-"+strings.ToLower(f)+" (>= 1.0), other")
+			}
+			para := mkStruct(pt, map[string]Val{"Values": MapV{Obj: mid}, "Order": strSlice(st, relFields)})
+			obj := zeroVal(n).(*StructV)
+			if !setNamed(obj, structOf(n), "Paragraph", para) {
+				r.undecided(key, p.Pos(fn.Pos()), "the document type does not embed Paragraph")
 				continue
 			}
-			if _, isRel := map[string]bool{"Depends": true, "Pre-Depends": true, "Recommends": true, "Suggests": true, "Enhances": true, "Breaks": true, "Conflicts": true, "Replaces": true, "Provides": true, "Built-Using": true, "Build-Depends": true, "Build-Depends-Arch": true, "Build-Depends-Indep": true, "Build-Conflicts": true, "Build-Conflicts-Arch": true, "Build-Conflicts-Indep": true}[lits[0]]; !isRel {
-				r.bad(key, p.Pos(fn.Pos()), fmt.Sprintf("%q is not a relationship field", lits[0]), nil)
+			id := st.alloc(n, obj)
+			before := deepRender(st, Ptr{Obj: id}, 0)
+			st.push(fn, []Val{Ptr{Obj: id}}, nil)
+			out := m.Run(st)
+			if len(out) != 1 || out[0].Status != stRet {
+				r.undecided(key, p.Pos(fn.Pos()), retDesc(out))
 				continue
 			}
-			r.ok(key, p.Pos(fn.Pos()), "reads field "+lits[0])
+			got := deepRender(st, st.Ret, 0)
+			switch {
+			case !strings.Contains(got, `"pkg-`+strings.ToLower(field)+`"`):
+				r.bad(key, p.Pos(fn.Pos()), fmt.Sprintf("%s does not return the parsed %s field: %s", name, field, clip(got, 200)), nil)
+			case deepRender(st, Ptr{Obj: id}, 0) != before:
+				r.bad(key, p.Pos(fn.Pos()), name+" modifies the entry it is called on", nil)
+			default:
+				r.ok(key, p.Pos(fn.Pos()), "returns the parsed form of the field "+field+" and leaves the entry alone")
+			}
 		}
 	}
 	c10Files(p, r)
